@@ -71,4 +71,391 @@ theorem Lay.rs' {ext wp o lo hi} (h : Lay ext wp o) (h1 : lo ≤ wp) (h2 : wp + 
 theorem Lay.ad' {ext wp o lo hi} (h : Lay ext wp o) (h1 : lo ≤ wp) (h2 : wp + o.code.length ≤ hi) : AddrsIn lo hi o.defs :=
   h.ad.mono h1 h2
 
+macro "orfind" h:ident : tactic => `(tactic| first
+  | exact $h
+  | exact Or.inl $h
+  | exact Or.inr $h
+  | exact Or.inr (Or.inl $h)
+  | exact Or.inr (Or.inr $h)
+  | exact Or.inr (Or.inr (Or.inl $h))
+  | exact Or.inr (Or.inr (Or.inr $h))
+  | exact Or.inr (Or.inr (Or.inr (Or.inl $h)))
+  | exact Or.inr (Or.inr (Or.inr (Or.inr $h)))
+  | exact Or.inr (Or.inr (Or.inr (Or.inr (Or.inl $h))))
+  | exact Or.inr (Or.inr (Or.inr (Or.inr (Or.inr $h))))
+  | exact Or.inr (Or.inr (Or.inr (Or.inr (Or.inr (Or.inl $h)))))
+  | exact Or.inr (Or.inr (Or.inr (Or.inr (Or.inr (Or.inr $h)))))
+  | exact Or.inr (Or.inr (Or.inr (Or.inr (Or.inr (Or.inr (Or.inl $h))))))
+  | exact Or.inr (Or.inr (Or.inr (Or.inr (Or.inr (Or.inr (Or.inr $h)))))))
+
+macro "lay_tg" : tactic => `(tactic| (
+  try simp only [tgtsP_append, tgtsP_cons, tgtsP_nil, and_true, true_and, List.cons_append, List.nil_append]
+  repeat' apply And.intro
+  all_goals first
+    | (apply Lay.tg'; assumption; intro l hl
+       simp only [List.map_append, List.map_cons, List.map_nil, List.mem_append, List.mem_cons, List.not_mem_nil, or_false, false_or, or_assoc] at hl ⊢
+       first
+         | orfind hl
+         | (rcases hl with h | h <;> first | orfind h | (rcases h with h | h <;> first | orfind h | (rcases h with h | h <;> orfind h))))
+    | (intro l hl; simp [instrLabel, br, jmp] at hl; done)
+    | (intro l hl; simp only [instrLabel, br, jmp, Option.some.injEq] at hl; subst hl
+       simp only [List.map_append, List.map_cons, List.map_nil, List.mem_append, List.mem_cons, List.not_mem_nil, true_or, or_true, isFnLabel])
+    | exact tgtsP_nil))
+
+macro "lay_rs" : tactic => `(tactic| (
+  try simp only [resIn_append, resIn_cons, resIn_nil, and_true, true_and, List.cons_append, List.nil_append]
+  repeat' apply And.intro
+  all_goals first
+    | (apply Lay.rs'; assumption
+       all_goals ((try simp only [List.length_append, List.length_cons, List.length_nil]); omega))
+    | (intro n hn; simp [instrRes, br, jmp] at hn; done)
+    | (intro n hn; simp only [instrRes, Option.some.injEq] at hn; subst hn
+       (try simp only [List.length_append, List.length_cons, List.length_nil]); omega)
+    | exact resIn_nil))
+
+macro "lay_ad" : tactic => `(tactic| (
+  try simp only [addrsIn_append, addrsIn_cons, addrsIn_nil, and_true, true_and, List.cons_append, List.nil_append]
+  repeat' apply And.intro
+  all_goals first
+    | (apply Lay.ad'; assumption
+       all_goals ((try simp only [List.length_append, List.length_cons, List.length_nil]); omega))
+    | ((try simp only [List.length_append, List.length_cons, List.length_nil]); omega)
+    | exact addrsIn_nil))
+
+macro "lay" : tactic => `(tactic| (refine ⟨?_, ?_, ?_⟩ <;> dsimp only <;> first | lay_tg | lay_rs | lay_ad))
+
+
+theorem builtin_noLabel {f : Nat} {i : Instr} (hi : (builtinInstr f : Option Instr) = some i) :
+    instrLabel i = none ∧ instrRes i = none := by
+  match f with
+  | 0 => simp [builtinInstr] at hi; subst hi; exact ⟨rfl, rfl⟩
+  | 1 => simp [builtinInstr] at hi; subst hi; exact ⟨rfl, rfl⟩
+  | 2 => simp [builtinInstr] at hi; subst hi; exact ⟨rfl, rfl⟩
+  | 3 => simp [builtinInstr] at hi; subst hi; exact ⟨rfl, rfl⟩
+  | n + 4 => simp [builtinInstr] at hi
+
+theorem lay_all (sd : Defs) :
+    (∀ wp c e, Lay [] wp (compileExpr sd wp c e)) ∧
+    (∀ (wp c : Nat) (end_ : Label) (ls : List Label) (arms : List (Pat × Expr)), Lay [end_] wp (compileArmsE sd wp c end_ ls arms)) ∧
+    (∀ (wp c : Nat) (arms : List (Pat × Expr)), Lay (compileTestsE sd wp c arms).2 wp (compileTestsE sd wp c arms).1) ∧
+    (∀ (wp c : Nat) (arm : Label) (vs : List Expr), Lay [arm] wp (compilePatVals sd wp c arm vs)) ∧
+    (∀ wp c ss, Lay [] wp (compileStmts sd wp c ss)) ∧
+    (∀ wp c s, Lay [] wp (compileStmt sd wp c s)) ∧
+    (∀ wp c end_ brs, Lay [end_] wp (compileBranches sd wp c end_ brs)) ∧
+    (∀ (wp c : Nat) (end_ : Label) (ls : List Label) (arms : List (Pat × List Stmt)), Lay [end_] wp (compileArmsS sd wp c end_ ls arms)) ∧
+    (∀ (wp c : Nat) (arms : List (Pat × List Stmt)), Lay (compileTestsS sd wp c arms).2 wp (compileTestsS sd wp c arms).1) ∧
+    (∀ wp c es, Lay [] wp (compileArgs sd wp c es)) ∧
+    (∀ wp c fs, Lay [] wp (compileFields sd wp c fs)) := by
+  apply compileExpr.mutual_induct sd
+  all_goals (try dsimp only)
+  case case12 =>
+    intro wp c f args i hi ih
+    obtain ⟨h1, h2⟩ := builtin_noLabel hi
+    simp only [compileExpr, hi]
+    refine ⟨?_, ?_, ?_⟩ <;> dsimp only
+    · rw [tgtsP_append]
+      exact ⟨ih.tg' (fun l h => h), ⟨by intro j hj l hl; simp only [List.mem_singleton] at hj; subst hj; rw [h1] at hl; cases hl⟩⟩
+    · rw [resIn_append]
+      exact ⟨ih.rs' (Nat.le_refl _) (by simp only [List.length_append]; omega),
+        ⟨by intro j hj n hn; simp only [List.mem_singleton] at hj; subst hj; rw [h2] at hn; cases hn⟩⟩
+    · exact ih.ad' (Nat.le_refl _) (by simp only [List.length_append]; omega)
+  case case13 => intro wp c f args hi ih; simp only [compileExpr, hi]; lay
+  case case30 =>
+    intro wp c e s ih
+    cases s <;> simp only [compileExpr, if_true, Bool.false_eq_true, if_false] <;> lay
+  case case32 =>
+    intro wp c e sub ih
+    simp only [compileExpr]
+    have hI : ∀ (ks : List Nat) P, TgtsP P (ks.map fun k => (Instruction.Identifier k : Instr)) := by
+      intro ks P; refine ⟨?_⟩; intro j hj l hl
+      obtain ⟨k, _, rfl⟩ := List.mem_map.mp hj; simp [instrLabel] at hl
+    have hR : ∀ (ks : List Nat) lo hi, ResIn lo hi (ks.map fun k => (Instruction.Identifier k : Instr)) := by
+      intro ks lo hi; refine ⟨?_⟩; intro j hj n hn
+      obtain ⟨k, _, rfl⟩ := List.mem_map.mp hj; simp [instrRes] at hn
+    by_cases hz : (Defs.fields sd sub).length = 0
+    · simp only [hz, if_true]
+      refine ⟨?_, ?_, ?_⟩ <;> dsimp only
+      · simp only [tgtsP_append, tgtsP_cons, tgtsP_nil, and_true, List.cons_append]
+        refine ⟨by intro l hl; simp [instrLabel] at hl, ⟨ih.tg' (fun l h => h), hI _ _⟩, by intro l hl; simp [instrLabel] at hl⟩
+      · simp only [resIn_append, resIn_cons, resIn_nil, and_true, List.cons_append]
+        refine ⟨by intro n hn; simp [instrRes] at hn, ⟨ih.rs' (by omega) (by simp only [List.length_append, List.length_cons]; omega), hR _ _ _⟩,
+          by intro n hn; simp [instrRes] at hn⟩
+      · exact ih.ad' (by omega) (by simp only [List.length_append, List.length_cons]; omega)
+    · simp only [hz, if_false]
+      refine ⟨?_, ?_, ?_⟩ <;> dsimp only
+      · simp only [tgtsP_append, tgtsP_cons, tgtsP_nil, and_true, List.cons_append]
+        refine ⟨by intro l hl; simp [instrLabel] at hl, ⟨ih.tg' (fun l h => h), hI _ _⟩, by intro l hl; simp [instrLabel] at hl,
+          by intro l hl; simp [instrLabel] at hl⟩
+      · simp only [resIn_append, resIn_cons, resIn_nil, and_true, List.cons_append]
+        refine ⟨by intro n hn; simp [instrRes] at hn, ⟨ih.rs' (by omega) (by simp only [List.length_append, List.length_cons]; omega), hR _ _ _⟩,
+          by intro n hn; simp [instrRes] at hn, by intro n hn; simp [instrRes] at hn⟩
+      · exact ih.ad' (by omega) (by simp only [List.length_append, List.length_cons]; omega)
+  case case34 =>
+    intro wp c scrut arms ihS ihT ihA
+    obtain ⟨bd, addrs, _, hk, hp⟩ := (good_all sd).2.1 (wp + (compileExpr sd wp c scrut).code.length +
+      (compileTestsE sd (wp + (compileExpr sd wp c scrut).code.length) ((compileExpr sd wp c scrut).c + 1) arms).1.code.length)
+      (compileTestsE sd (wp + (compileExpr sd wp c scrut).code.length) ((compileExpr sd wp c scrut).c + 1) arms).1.c
+      (Label.anon (compileExpr sd wp c scrut).c)
+      (compileTestsE sd (wp + (compileExpr sd wp c scrut).code.length) ((compileExpr sd wp c scrut).c + 1) arms).2 arms
+    have hsub : ∀ l ∈ (compileTestsE sd (wp + (compileExpr sd wp c scrut).code.length) ((compileExpr sd wp c scrut).c + 1) arms).2,
+        l ∈ (compileArmsE sd (wp + (compileExpr sd wp c scrut).code.length +
+          (compileTestsE sd (wp + (compileExpr sd wp c scrut).code.length) ((compileExpr sd wp c scrut).c + 1) arms).1.code.length)
+          (compileTestsE sd (wp + (compileExpr sd wp c scrut).code.length) ((compileExpr sd wp c scrut).c + 1) arms).1.c
+          (Label.anon (compileExpr sd wp c scrut).c)
+          (compileTestsE sd (wp + (compileExpr sd wp c scrut).code.length) ((compileExpr sd wp c scrut).c + 1) arms).2 arms).defs.map (·.1) := by
+      intro l hl
+      rw [(hp.map _).mem_iff, List.map_append, List.mem_append, hk, List.take_of_length_le (Nat.le_of_eq (testsE_len sd arms _ _))]
+      exact Or.inl hl
+    simp only [compileExpr]
+    refine ⟨?_, ?_, ?_⟩ <;> dsimp only
+    · simp only [tgtsP_append]
+      refine ⟨⟨ihS.tg' ?_, ihT.tg' ?_⟩, ihA.tg' ?_⟩
+      all_goals (intro l hl; simp only [List.map_append, List.map_cons, List.map_nil, List.mem_append, List.mem_cons, List.not_mem_nil, or_false, false_or, or_assoc] at hl ⊢)
+      · rcases hl with h | h <;> orfind h
+      · rcases hl with h | h | h
+        · orfind h
+        · have h' := hsub l h; orfind h'
+        · orfind h
+      · rcases hl with h | h | h <;> orfind h
+    · lay_rs
+    · lay_ad
+  case case37 =>
+    intro wp c scrut arms ihS ihT ihA
+    obtain ⟨bd, addrs, _, hk, hp⟩ := (good_all sd).2.2.2.2.2.2.2.1 (wp + (compileExpr sd wp c scrut).code.length +
+      (compileTestsS sd (wp + (compileExpr sd wp c scrut).code.length) ((compileExpr sd wp c scrut).c + 1) arms).1.code.length)
+      (compileTestsS sd (wp + (compileExpr sd wp c scrut).code.length) ((compileExpr sd wp c scrut).c + 1) arms).1.c
+      (Label.anon (compileExpr sd wp c scrut).c)
+      (compileTestsS sd (wp + (compileExpr sd wp c scrut).code.length) ((compileExpr sd wp c scrut).c + 1) arms).2 arms
+    have hsub : ∀ l ∈ (compileTestsS sd (wp + (compileExpr sd wp c scrut).code.length) ((compileExpr sd wp c scrut).c + 1) arms).2,
+        l ∈ (compileArmsS sd (wp + (compileExpr sd wp c scrut).code.length +
+          (compileTestsS sd (wp + (compileExpr sd wp c scrut).code.length) ((compileExpr sd wp c scrut).c + 1) arms).1.code.length)
+          (compileTestsS sd (wp + (compileExpr sd wp c scrut).code.length) ((compileExpr sd wp c scrut).c + 1) arms).1.c
+          (Label.anon (compileExpr sd wp c scrut).c)
+          (compileTestsS sd (wp + (compileExpr sd wp c scrut).code.length) ((compileExpr sd wp c scrut).c + 1) arms).2 arms).defs.map (·.1) := by
+      intro l hl
+      rw [(hp.map _).mem_iff, List.map_append, List.mem_append, hk, List.take_of_length_le (Nat.le_of_eq (testsS_len sd arms _ _))]
+      exact Or.inl hl
+    simp only [compileStmt]
+    refine ⟨?_, ?_, ?_⟩ <;> dsimp only
+    · simp only [tgtsP_append]
+      refine ⟨⟨ihS.tg' ?_, ihT.tg' ?_⟩, ihA.tg' ?_⟩
+      all_goals (intro l hl; simp only [List.map_append, List.map_cons, List.map_nil, List.mem_append, List.mem_cons, List.not_mem_nil, or_false, false_or, or_assoc] at hl ⊢)
+      · rcases hl with h | h <;> orfind h
+      · rcases hl with h | h | h
+        · orfind h
+        · have h' := hsub l h; orfind h'
+        · orfind h
+      · rcases hl with h | h | h <;> orfind h
+    · lay_rs
+    · lay_ad
+  case case38 =>
+    intro wp c brs hasElse els ihB ihS
+    cases hasElse <;> simp only [compileStmt, if_true, Bool.false_eq_true, if_false, List.append_nil, List.length_nil, Nat.add_zero] <;> lay
+  case case44 => intro wp c arm e es w hw ih; simp only [compilePatVals, hw]; lay
+  case case45 => intro wp c arm e es hw ihE ihR; simp only [compilePatVals, hw]; lay
+  case case50 =>
+    intro wp c end_ l ls pat body rest ihB ihR
+    cases pat with
+    | default => simp only [compileArmsE] at ihB ihR ⊢; lay
+    | values vs =>
+      cases hf : firstBinding vs with
+      | none => simp only [compileArmsE, hf] at ihB ihR ⊢; lay
+      | some wx => obtain ⟨w, x⟩ := wx; simp only [compileArmsE, hf] at ihB ihR ⊢; lay
+  case case55 =>
+    intro wp c end_ l ls pat body rest ihB ihR
+    cases pat with
+    | default => simp only [compileArmsS] at ihB ihR ⊢; lay
+    | values vs =>
+      cases hf : firstBinding vs with
+      | none => simp only [compileArmsS, hf] at ihB ihR ⊢; lay
+      | some wx => obtain ⟨w, x⟩ := wx; simp only [compileArmsS, hf] at ihB ihR ⊢; lay
+  all_goals intros
+  all_goals (try simp only [compileExpr, compileArgs, compileFields, compileStmt, compileStmts, compileBranches, compilePatVals, compileTestsE, compileTestsS, compileArmsE, compileArmsS])
+  all_goals (try lay)
+
+/-! ### whole functions and programs -/
+
+/-- strict variant for complete functions: every address and resolved target lies strictly inside -/
+structure LayLt (wp : Nat) (o : Out) : Prop where
+  tg : TgtsP (fun l => isFnLabel l ∨ l ∈ o.defs.map (·.1)) o.code
+  rs : ∀ i ∈ o.code, ∀ n, instrRes i = some n → n < wp + o.code.length
+  ad : ∀ q ∈ o.defs, q.2 < wp + o.code.length
+
+theorem fun_layLt (sd : Defs) (wp c : Nat) (fd : FunDef) : LayLt wp (compileFun sd wp c fd) := by
+  have hB := (lay_all sd).2.2.2.2.1 (wp + ((fd.params.reverse.map fun (x : Nat × Ty) => (Instruction.Def x.1 : Instr)) ++ [Instruction.SaveSP]).length) c fd.body
+  have hpro : ∀ i ∈ ((fd.params.reverse.map fun (x : Nat × Ty) => (Instruction.Def x.1 : Instr)) ++ [Instruction.SaveSP]),
+      instrLabel i = none ∧ instrRes i = none := by
+    intro i hi
+    rcases List.mem_append.mp hi with h | h
+    · obtain ⟨x, _, rfl⟩ := List.mem_map.mp h; exact ⟨rfl, rfl⟩
+    · simp only [List.mem_singleton] at h; subst h; exact ⟨rfl, rfl⟩
+  refine ⟨⟨?_⟩, ?_, ?_⟩
+  · intro i hi l hl
+    simp only [compileFun, List.mem_append, List.mem_singleton] at hi
+    rcases hi with (h | h) | h
+    · rw [(hpro i (by simpa using h)).1] at hl; cases hl
+    · have := hB.tg.h i h l hl
+      simp only [compileFun, List.map_cons, List.mem_cons]
+      rcases this with h1 | h1 | h1
+      · exact Or.inl h1
+      · cases h1
+      · exact Or.inr (Or.inr h1)
+    · subst h; cases hl
+  · intro i hi n hn
+    simp only [compileFun, List.mem_append, List.mem_singleton] at hi
+    rcases hi with (h | h) | h
+    · rw [(hpro i (by simpa using h)).2] at hn; cases hn
+    · have := (hB.rs.h i h n hn).2
+      simp only [compileFun, List.length_append, List.length_singleton] at this ⊢
+      omega
+    · subst h; cases hn
+  · intro q hq
+    simp only [compileFun, List.mem_cons] at hq
+    rcases hq with rfl | h
+    · simp only [compileFun, List.length_append, List.length_singleton]; omega
+    · have := (hB.ad.h q h).2
+      simp only [compileFun, List.length_append, List.length_singleton] at this ⊢
+      omega
+
+theorem funs_layLt (sd : Defs) : ∀ (funs : List FunDef) (wp c : Nat), LayLt wp (compileFuns sd wp c funs)
+  | [], wp, c => ⟨⟨by simp [compileFuns]⟩, by simp [compileFuns], by simp [compileFuns]⟩
+  | fd :: rest, wp, c => by
+    have hF := fun_layLt sd wp c fd
+    have hR := funs_layLt sd rest (wp + (compileFun sd wp c fd).code.length) (compileFun sd wp c fd).c
+    refine ⟨⟨?_⟩, ?_, ?_⟩
+    · intro i hi l hl
+      simp only [compileFuns, List.mem_append] at hi
+      simp only [compileFuns, List.map_append, List.mem_append]
+      rcases hi with h | h
+      · rcases hF.tg.h i h l hl with h1 | h1
+        · exact Or.inl h1
+        · exact Or.inr (Or.inl h1)
+      · rcases hR.tg.h i h l hl with h1 | h1
+        · exact Or.inl h1
+        · exact Or.inr (Or.inr h1)
+    · intro i hi n hn
+      simp only [compileFuns, List.mem_append] at hi
+      simp only [compileFuns, List.length_append]
+      rcases hi with h | h
+      · have := hF.rs i h n hn; omega
+      · have := hR.rs i h n hn; omega
+    · intro q hq
+      simp only [compileFuns, List.mem_append] at hq
+      simp only [compileFuns, List.length_append]
+      rcases hq with h | h
+      · have := hF.ad q h; omega
+      · have := hR.ad q h; omega
+
+theorem lookup_isSome_of_mem : ∀ {labels : List (Label × Nat)} {l : Label}, l ∈ labels.map (·.1) →
+    ∃ a, lookupLabel labels l = some a ∧ (l, a) ∈ labels
+  | [], l, h => by simp at h
+  | (k, a) :: rest, l, h => by
+    simp only [lookupLabel, List.find?_cons]
+    by_cases hk : k = l
+    · subst hk; exact ⟨a, by simp, List.mem_cons_self ..⟩
+    · have hne : (k == l) = false := by simpa using hk
+      simp only [hne]
+      simp only [List.map_cons, List.mem_cons] at h
+      rcases h with h | h
+      · exact absurd h.symm hk
+      · obtain ⟨a', h1, h2⟩ := lookup_isSome_of_mem h
+        exact ⟨a', by simpa [lookupLabel] using h1, List.mem_cons_of_mem _ h2⟩
+
+theorem resolveTargets_some {labels : List (Label × Nat)} : ∀ (code : List Instr),
+    (∀ i ∈ code, ∀ l, instrLabel i = some l → l ∈ labels.map (·.1)) →
+    ∃ prog, resolveTargets labels code = some prog
+  | [], _ => ⟨[], rfl⟩
+  | i :: is, h => by
+    obtain ⟨prog, hp⟩ := resolveTargets_some is (fun j hj => h j (List.mem_cons_of_mem _ hj))
+    have hi : ∃ i', resolveInstr labels i = some i' := by
+      have h0 := h i (List.mem_cons_self ..)
+      cases i <;> try exact ⟨_, rfl⟩
+      all_goals
+        rename_i t
+        cases t with
+        | Resolved n => exact ⟨_, rfl⟩
+        | Unresolved l =>
+          obtain ⟨a, ha, _⟩ := lookup_isSome_of_mem (h0 l rfl)
+          simp [resolveInstr, resolveTarget, ha]
+    obtain ⟨i', hi'⟩ := hi
+    exact ⟨i' :: prog, by simp [resolveTargets, hi', hp]⟩
+
+theorem fn_label_mem (sd : Defs) : ∀ (funs : List FunDef) (wp c : Nat) (fd : FunDef), fd ∈ funs →
+    Label.fn fd.name ∈ (compileFuns sd wp c funs).defs.map (·.1)
+  | [], _, _, _, h => by cases h
+  | g :: rest, wp, c, fd, h => by
+    simp only [compileFuns, List.map_append, List.mem_append]
+    rcases List.mem_cons.mp h with rfl | h'
+    · exact Or.inl (by simp [compileFun])
+    · exact Or.inr (fn_label_mem sd rest _ _ fd h')
+
+theorem instrRes_res {labels : List (Label × Nat)} {i : Instr} {n : Nat} (h : instrRes (res labels i) = some n) :
+    instrRes i = some n ∨ ∃ l, instrLabel i = some l ∧ lookupLabel labels l = some n := by
+  cases i <;> try (exact Or.inl h)
+  all_goals
+    rename_i t
+    cases t with
+    | Resolved m => exact Or.inl h
+    | Unresolved l =>
+      right
+      refine ⟨l, rfl, ?_⟩
+      simp only [res, resT] at h
+      cases hl : lookupLabel labels l with
+      | none => rw [hl] at h; simp [instrRes] at h
+      | some a => rw [hl] at h; simp only [instrRes, Option.some.injEq] at h; rw [h]
+
+theorem lookup_mem {labels : List (Label × Nat)} {l : Label} {a : Nat} (h : lookupLabel labels l = some a) : (l, a) ∈ labels := by
+  simp only [lookupLabel, Option.map_eq_some_iff] at h
+  obtain ⟨q, hq, rfl⟩ := h
+  have h1 := List.mem_of_find?_eq_some hq
+  have h2 := List.find?_some hq
+  have : q.1 = l := by simpa using h2
+  rw [← this]; exact h1
+
+/-- **resolve_total**: for model-compiled code with distinct function names in which every `Call`
+names a defined function (lowering only admits calls to declared functions), `compileProgram`
+succeeds: no duplicate label, every referenced label is defined; afterwards no instruction carries
+an unresolved target and every target is a valid program address. -/
+theorem resolve_total_core (sd : Defs) (funs : List FunDef) (hn : (funs.map (·.name)).Nodup)
+    (hcalls : ∀ i ∈ (compileUnresolved sd funs).code, ∀ f, instrLabel i = some (.fn f) → ∃ fd ∈ funs, fd.name = f) :
+    ∃ cp, compileProgram sd funs = some cp ∧
+      (∀ i ∈ cp.prog, ∀ n, instrRes i = some n → n < cp.prog.length) := by
+  have hL := funs_layLt sd funs 1 0
+  have hdist := labels_never_collide sd funs hn
+  have hmem : ∀ i ∈ (compileUnresolved sd funs).code, ∀ l, instrLabel i = some l →
+      l ∈ (compileUnresolved sd funs).defs.map (·.1) := by
+    intro i hi l hl
+    have hi' : i ∈ (compileFuns sd 1 0 funs).code := by
+      simp only [compileUnresolved, List.mem_cons] at hi
+      rcases hi with rfl | h
+      · cases hl
+      · exact h
+    rcases hL.tg.h i hi' l hl with h1 | h1
+    · cases l with
+      | anon k => cases h1
+      | fn f =>
+        obtain ⟨fd, hfd, rfl⟩ := hcalls i hi f hl
+        exact fn_label_mem sd funs 1 0 fd hfd
+    · exact h1
+  obtain ⟨prog, hp⟩ := resolveTargets_some (labels := (compileUnresolved sd funs).defs) _ hmem
+  refine ⟨⟨prog, (compileUnresolved sd funs).defs⟩, by simp [compileProgram, hdist, hp], ?_⟩
+  have hprog := resolveTargets_eq hp
+  intro i' hi' n hn'
+  simp only at hi' ⊢
+  rw [hprog] at hi' ⊢
+  obtain ⟨i, hi, rfl⟩ := List.mem_map.mp hi'
+  simp only [List.length_map]
+  have hlen : (compileUnresolved sd funs).code.length = 1 + (compileFuns sd 1 0 funs).code.length := by
+    simp [compileUnresolved]; omega
+  have hiF : i = Instruction.Exit ExitReason.Panic ∨ i ∈ (compileFuns sd 1 0 funs).code := by
+    simpa [compileUnresolved] using hi
+  rcases instrRes_res hn' with h | ⟨l, hl, hlk⟩
+  · rcases hiF with rfl | h'
+    · cases h
+    · have := hL.rs i h' n h; omega
+  · have hq := lookup_mem hlk
+    have := hL.ad (l, n) (by simpa [compileUnresolved] using hq)
+    simp only at this
+    omega
+
 end AranyaV.Lang
